@@ -85,6 +85,7 @@ def prop(case, res):
 
 
 SUBS = {'c15': prop}
+CASEFOLD = {'K': ['\u212a'], 'S': ['\u017f'], 'I': ['\u0131', '\u0130'], 'A': ['\u212b'], 'F': ['\ufb01', '\ufb00'], 'M': ['\u2133']}
 
 
 def shard(a):
@@ -142,6 +143,12 @@ def shard(a):
                 if optlists and (i < 2 or i >= len(x) - 2 or rnd.random() < .2):
                     # non-default option values may switch a gate off (e.g. validate_check_digits=False)
                     prop({'mod': name, 'x': core.enc(x[:i] + s + x[i + 1:]), 'opts': rnd.choice(optlists)}, res)
+    # letters whose case mappings cross into ASCII (Kelvin sign -> k, long s -> S, dotless / dotted i) at every position of
+    # every corpus number that holds the ASCII letter: a prefix looked up through lower() / upper() lets them through
+    for x in gen.pool(name)[:a['nfold']]:
+        for i, c in enumerate(x):
+            for s in CASEFOLD.get(c.upper(), ()):
+                prop({'mod': name, 'x': core.enc(x[:i] + s + x[i + 1:])}, res)
     # Hypothesis part: hostile edits (anything accepted is in the domain)
     strat = st.fixed_dictionaries({'mod': st.just(name), 'x': gen.edits(st.one_of(gen.valid_numbers(name), st.sampled_from(gen.seeds(name)))).map(core.enc)})
     core.drive(prop, strat, a['n'], (a['seed'], 'C15', name), res, shrink_skip=a['known'])
@@ -154,7 +161,7 @@ def run(ctx):
     mods = core.number_modules()
     names = [n for n in mods if n not in GENERIC]
     args = [{'shard': n, 'mod': n, 'seed': ctx.seed, 'nnum': ctx.q(4, 40), 'scripts': ctx.q(4, 80), 'n': ctx.q(60, 2000),
-             'known': ctx.known_buckets} for n in names]
+             'nfold': ctx.q(300, 3000), 'known': ctx.known_buckets} for n in names]
     res = core.run_shards(shard, args)
     res.notes['modules'] = len(names)
     res.notes['foreign_digit_code_points'] = sum(len(v) for v in DIGITS.values())
